@@ -108,6 +108,7 @@ D6 = "extend-lower-arange-extra-abscissa"
 D7 = "extend-upper-arange-overshoot"
 D8 = "adaptive-update-zero-width-range"
 D9 = "extend-evaluates-function-on-empty-block"
+D10 = "adaptive-update-gap-below-float-spacing"
 
 
 # ============================================================================ monitors
@@ -319,7 +320,15 @@ def _judge_table(ctx, real, model, up, exc, what, batches=(), earlier=()):
                     f"table exists; the adaptive update raised {exc!r} out of evaluate()",
                     info=info)
         if info.get("op") == "extend" and exc is not None:
-            for mech, why in _applicable(ctx, real, info, exc, batches):
+            app = _applicable(ctx, real, info, exc, batches)
+            if not app and info.get("sub_resolution") and info.get("adaptive") and \
+                    "strictly increasing" in str(exc):
+                app = [(D10, f"the pending direct evaluations reach {info['lo']!r} .. "
+                        f"{info['hi']!r}, the table is [{info['old_min']!r}, "
+                        f"{info['old_max']!r}]: the automatic extension asks for "
+                        f"{info['p_min']}/{info['p_max']} points in a gap of a few ulp and "
+                        "evaluate()/derivative() raises instead of returning the value")]
+            for mech, why in app:
                 ctx.add(mech, f"{what}: raised {exc!r}; {why}", info=info)
         ctx.unjudged += 1
         return False
@@ -356,6 +365,15 @@ def _applicable(ctx, real, info, exc, batches):
             seen_lo = False
         if ahi == info["n_hi"]:
             seen_hi = False
+        if emptied and fn.R == 1 and ahi > info["n_hi"] > 0:
+            xo = info["old_max"] + (info["p_max"] + 1) * (info["new_max"] - info["old_max"]) \
+                / info["p_max"]
+            if bool(fn.bad(np.array(xo))):
+                why = (f"numpy.arange adds a point at {xo!r}, one step beyond newMax="
+                       f"{info['new_max']!r}, where the scalar function is non-finite; that "
+                       "single point then empties the whole table")
+                applicable.append((D7, why))
+                applicable.append((D4, why))
         if seen_lo:
             applicable.append((D6, f"numpy.arange({info['new_min']!r}, {info['old_min']!r}, "
                                f"step) has {alo} elements for pointsMin={info['p_min']} "
@@ -367,13 +385,18 @@ def _applicable(ctx, real, info, exc, batches):
         # the previous extension did not land on its newMax exactly (arange rounding), so
         # the same newMax is now 'beyond' the table by a few ulp: step below the spacing
         # of floats, duplicate abscissae
+        asked = getattr(ctx, "requested_max", set())
         if unsorted and real.hasInterpolation() and info["p_max"] > 0 and \
-                0 < info["new_max"] - float(real._rangeMax) <= info["tol_x"]:
+                info["new_max"] in asked and 0 < info["new_max"] - float(real._rangeMax) <= info["tol_x"]:
             applicable.append((D7, f"the table ends at {float(real._rangeMax)!r}, "
                                f"{info['new_max'] - float(real._rangeMax):.2e} below the newMax "
                                f"{info['new_max']!r} that an earlier extension was asked to "
                                "reach; extending to it again asks numpy.arange for steps "
                                "below the floating-point spacing"))
+    if info.get("op") == "extend":
+        if not hasattr(ctx, "requested_max"):
+            ctx.requested_max = set()
+        ctx.requested_max.add(info["new_max"])
     if info.get("op") == "extend" and getattr(fn, "rows_for_empty", 0) > 0 and \
             (info["n_lo"] == 0 or info["n_hi"] == 0):
         applicable.append((D9, f"only {info['n_lo']} lower / {info['n_hi']} upper points are "
@@ -606,7 +629,10 @@ def _judge_call(ctx, real, model_before, pr, res, exc, batches, x_in, x_copy, wh
                     f"[{model_before['xmin']!r},{model_before['xmax']!r}]): got {g.tolist()}, "
                     f"contract gives {e.tolist()} +- {t.tolist()}", x=xa)
     # ---- accuracy clause (inside the table, where the function is finite)
-    if pr.acc is not None:
+    if pr.acc is not None and model_before.get("hmin_rel", 1.0) < 1e-9 and \
+            not getattr(ctx, "taint", None):
+        ctx.unjudged += 1        # abscissae a few ulp apart (sub-resolution extension)
+    elif pr.acc is not None:
         accr, trur = rows(pr.acc), rows(pr.truth)
         j = np.isfinite(accr) & np.isfinite(trur)
         if np.any(j):
@@ -842,6 +868,8 @@ def _op_table(ctx, rng, real, model, fn, kind, args, label):
     what = f"op {len(ctx.ops) - 1} {label}"
     nv0 = ctx.nadd
     up = None
+    if kind in ("new", "write-read"):
+        ctx.requested_max = set()      # the table ends are no longer those of an extension
     if kind == "new":
         up = model.new_table(*args)
         res, exc, batches, st = _do(real, lambda: real.newInterpolationTable(*args))
@@ -1381,7 +1409,7 @@ def summarize(results, tier):
         "position_classes": dict(poscls),
         "operations_executed": dict(ops),
         "ops_per_sequence_max": max(nops) if nops else 0,
-        "acc_ratio_max_in_units_of_Hall_Meyer_bound": [a * M.K_ACC for a in acc],
+        "acc_ratio_max_in_units_of_Hall_Meyer_bound": [a * k for a, k in zip(acc, M.K_ACC)],
         "acc_safety_factor": M.K_ACC,
         "model_value_residual_over_tolerance_max": val,
         "roundtrip_residual_over_tolerance_max": rt,
